@@ -71,7 +71,16 @@ pub fn run(rep: &mut Report) {
     let thorough = rep.thorough();
     let lab = Lab::new(thorough);
     let n = if thorough { 3 } else { 2 };
-    let sh = shards(&lab, if thorough { 4 } else { 2 }, if thorough { &[64, 4] } else { &[64] });
+    let mut sh = shards(&lab, if thorough { 4 } else { 2 }, if thorough { &[64, 4] } else { &[64] });
+    if !thorough {
+        // the six orders of three different words (sizes differ in the content-defined universes): with a prior
+        // output of two of them a small chunk has to land deep inside a bigger one that still has to move
+        for ui in 0..lab.unis.len() {
+            for p in [[0usize, 1, 2], [0, 2, 1], [1, 0, 2], [1, 2, 0], [2, 0, 1], [2, 1, 0]] {
+                sh.push(Shard { ui, hash_len: 64, src: p.to_vec() });
+            }
+        }
+    }
     let (lab_ref, sh_ref) = (&lab, &sh);
     let a = par_shards(sh.len(), threads(), |i| {
         let mut agg = Agg::default();
@@ -185,7 +194,7 @@ pub fn run(rep: &mut Report) {
     rep.set("distinct_nontrivial", json!(rep.agg.distinct_count("crash_states")));
     rep.set("exhaustive", json!(true));
     rep.set("universes", lab.describe());
-    rep.set("rule", json!(format!("library leg: for every first run (plain, in place over every prior output of <= {n} letters, with every seed of <= 2 letters; sources of <= {n} words per universe), every output write k and every tear offset t in 0..=len(write k): the run dies with t bytes of write k on the device, the clone is re-run in place on the remains and must succeed with output == source; repeated crash: the re-run dies at each of its writes (tear 0, half, full) and a third run must complete (quick: every 3rd first crash point; thorough: all); write/seek errors at every index must not end in success, short/pending answers must not fail the clone; non-trivial = distinct (device content after crash, source) states")));
+    rep.set("rule", json!(format!("library leg: for every first run (plain, in place over every prior output of <= {n} letters, with every seed of <= 2 letters; sources of <= {n} words per universe, quick: + the six orders of three different words), every output write k and every tear offset t in 0..=len(write k): the run dies with t bytes of write k on the device, the clone is re-run in place on the remains and must succeed with output == source; repeated crash: the re-run dies at each of its writes (tear 0, half, full) and a third run must complete (quick: every 3rd first crash point; thorough: all); write/seek errors at every index must not end in success, short/pending answers must not fail the clone; non-trivial = distinct (device content after crash, source) states")));
     rep.assume("crash model: writes before k complete, write k torn after t bytes, nothing later; matches tokio::fs::File where at most one write is in flight (bound to the real binary by the LD_PRELOAD leg)");
     rep.assume("no fsync/power-loss model: C05 speaks of interrupted processes and bita never syncs");
 }
